@@ -12,7 +12,8 @@ QUICK_BUILDS = [('11', 1, 1, 'O0'), ('11', 0, 0, 'O2'), ('14', 1, 0, 'O2'), ('14
                 ('17', 1, 1, 'O2'), ('17', 0, 0, 'O0'), ('20', 1, 0, 'O0'), ('20', 0, 1, 'O2')]
 ALL_BUILDS = [(s, e, n, o) for s in ('11', '14', '17', '20') for e in (1, 0) for n in (1, 0) for o in ('O0', 'O2')]
 
-VEC = ['sv_3_ntr_u32_std', 'sv_4_tr_u32_re', 'vec_0_tr_i8_std', 'fcv_6_ntr', 'sv_2_tc3_u32_amc', 'sv_3_i32_i32_amc', 'vec_0_i32_u8_re', 'fcv_16_i32']
+VEC = ['sv_3_ntr_u32_std', 'sv_4_tr_u32_re', 'vec_0_tr_i8_std', 'fcv_6_ntr', 'sv_2_tc3_u32_amc', 'sv_3_i32_i32_amc', 'vec_0_i32_u8_re', 'fcv_16_i32', 'sv_2_tc7_u32_std',
+       'sv_3_tc3_u16_re']
 FS = ['fs_less_sv4_ntr_std', 'fs_stateful_amcvec_ntr_amc', 'fs_coarse_amcvec_tr_re']
 SS = ['ss_3_less_stdset_ntr_std', 'ss_2_stateful_flatvec_ntr_std']
 
@@ -77,6 +78,23 @@ DETECT(has_capacity, std::declval<const T &>().capacity())
 DETECT(has_reserve, std::declval<T &>().reserve(typename T::size_type(1)))
 DETECT(has_index, std::declval<const T &>()[typename T::size_type(0)])
 DETECT(has_push_back, std::declval<T &>().push_back(std::declval<const typename T::value_type &>()))
+// compile-time facts a program can print: they must not depend on the build configuration either
+template <int S> struct B3 { unsigned char b[S]; };
+struct NT { int v; NT() : v(0) {} NT(const NT &o) : v(o.v) {} NT(NT &&o) noexcept : v(o.v) {} NT &operator=(const NT &o) { v = o.v; return *this; } NT &operator=(NT &&o) noexcept { v = o.v; return *this; } ~NT() {} };
+struct TS { int v; TS() : v(0) {} TS(const TS &o) : v(o.v) {} TS(TS &&o) noexcept : v(o.v) {} TS &operator=(const TS &o) { v = o.v; return *this; } TS &operator=(TS &&o) noexcept { v = o.v; return *this; } ~TS() {}
+  friend void swap(TS &a, TS &b) noexcept(false) { int t = a.v; a.v = b.v; b.v = t; } };
+struct TA { typedef std::true_type trivially_relocatable; int v; TA() : v(0) {} TA(const TA &o) : v(o.v) {} TA(TA &&o) noexcept : v(o.v) {} TA &operator=(const TA &o) { v = o.v; return *this; } TA &operator=(TA &&o) noexcept(false) { v = o.v; return *this; } ~TA() {} };
+struct TM { int v; TM() : v(0) {} TM(const TM &o) : v(o.v) {} TM(TM &&o) noexcept(false) : v(o.v) {} TM &operator=(const TM &o) { v = o.v; return *this; } TM &operator=(TM &&o) noexcept(false) { v = o.v; return *this; } ~TM() {} };
+template <class C> static void facts(const char *n) {
+  std::printf(" %s:%u/%u/%d%d%d%d%d", n, unsigned(sizeof(C)), unsigned(alignof(C)), int(std::is_nothrow_move_constructible<C>::value), int(std::is_nothrow_move_assignable<C>::value),
+              int(noexcept(std::declval<C &>().swap(std::declval<C &>()))), int(amc::is_trivially_relocatable<C>::value), int(std::is_trivially_destructible<C>::value));
+}
+template <class T> static void facts_for(const char *n) {
+  std::printf("\nstatic %s tr=%d", n, int(amc::is_trivially_relocatable<T>::value));
+  facts<amc::vector<T> >("vec"); facts<amc::SmallVector<T, 1> >("sv1"); facts<amc::SmallVector<T, 2> >("sv2"); facts<amc::SmallVector<T, 3> >("sv3"); facts<amc::SmallVector<T, 5> >("sv5");
+  facts<amc::SmallVector<T, 9> >("sv9"); facts<amc::FixedCapacityVector<T, 0> >("fcv0"); facts<amc::FixedCapacityVector<T, 1> >("fcv1"); facts<amc::FixedCapacityVector<T, 3> >("fcv3");
+  facts<amc::FixedCapacityVector<T, 300> >("fcv300"); facts<amc::FlatSet<T, std::less<T>, amc::allocator<T>, amc::SmallVector<T, 3> > >("fs3");
+}
 int main() {
   typedef amc::vector<int> V; typedef amc::SmallVector<int, 4> SV; typedef amc::FixedCapacityVector<int, 4> F; typedef amc::FlatSet<int> S;
   std::printf("vector:%d%d%d smallvector:%d%d%d fcv:%d%d%d flatset:%d%d%d%d%d std:%d%d smallset_macro:%d\n",
@@ -91,6 +109,10 @@ int main() {
     0
 #endif
   );
+  facts_for<char>("char"); facts_for<short>("short"); facts_for<B3<3> >("b3"); facts_for<B3<5> >("b5"); facts_for<B3<6> >("b6"); facts_for<B3<7> >("b7"); facts_for<int>("int");
+  facts_for<double>("double"); facts_for<NT>("nontrivial"); facts_for<TS>("throwing_swap"); facts_for<TA>("tr_throwing_assign"); facts_for<TM>("throwing_move");
+  facts_for<std::pair<int, NT> >("pair_int_nt"); facts_for<std::pair<char, int> >("pair_char_int");
+  std::printf("\n");
   return 0;
 }
 ''')
@@ -102,7 +124,8 @@ int main() {
     rc, out, err, _ = D.run_proc([str(exe)])
     exp_bits = '1' if extras else '0'
     expect = 'vector:%s smallvector:%s fcv:%s flatset:%s std:11 smallset_macro:%d' % (exp_bits * 3, exp_bits * 3, exp_bits * 3, exp_bits * 5, 1 if std in ('17', '20') else 0)
-    got = out.strip()
+    got, _, static = out.strip().partition('\n')
+    got = got.strip()
     msg = None
     if got != expect:
         msg = '%s: extras detection is "%s", expected "%s"' % (bname(b), got, expect)
@@ -113,7 +136,7 @@ int main() {
         rc2, _, _, _ = D.run_proc(['g++', '-std=c++' + std, '-O0', '-w', '-fsyntax-only', '-I' + str(D.REPO / 'include'), str(s2)], timeout=600)
         if rc2 == 0:
             msg = (msg or '') + ' %s: smallset.hpp compiles before C++17 (it must be absent)' % bname(b)
-    return got, msg
+    return (got, static), msg
 
 
 def run(tier, seed, only=None):
@@ -218,7 +241,23 @@ def run(tier, seed, only=None):
     # ---- absence
     absent = D.pool_map(lambda b: (b, absent_probe(b, work)), builds) if not only else []
     absent_msgs = [m for (_, (got, m)) in absent if m]
+    # compile-time facts (sizeof, noexcept, traits) printed by the same probe: identical in every build
+    facts = [(b, got[1]) for (b, (got, m)) in absent if got]
+    if facts:
+        ref_b, ref = facts[0]
+        for b, f in facts[1:]:
+            if f != ref:
+                la, lb = ref.splitlines(), f.splitlines()
+                for x, y in zip(la, lb):
+                    if x != y:
+                        wa, wb = x.split(), y.split()
+                        d = [(p, q) for p, q in zip(wa, wb) if p != q][:3]
+                        absent_msgs.append('compile-time facts differ between %s and %s for "%s": %s (name:sizeof/alignof/nothrow move-construct, move-assign, swap, trivially relocatable, trivially destructible)'
+                                           % (bname(ref_b), bname(b), ' '.join(wa[:2]), ', '.join('%s vs %s' % pq for pq in d)))
+                        break
+                break
     shutil.rmtree(work, ignore_errors=True)
     stats['distinct_nontrivial'] = len(distinct)
     return {'mismatches': mismatches, 'absent_msgs': absent_msgs, 'stats': stats, 'groups': per_group, 'samples': samples,
-            'builds': [bname(b) for b in builds], 'wall': time.time() - t0, 'absence_table': {bname(b): got for (b, (got, m)) in absent}}
+            'builds': [bname(b) for b in builds], 'wall': time.time() - t0, 'absence_table': {bname(b): got[0] for (b, (got, m)) in absent if got},
+            'static_fact_lines': len(facts[0][1].splitlines()) if facts else 0}
